@@ -103,12 +103,13 @@ func vhBuildGraph(size int) *vhGraph {
 	kidsI := vh.Choice("childrenI", 3+2*size)
 	g.index("I", kids[kidsI])
 	// an artifact R with a subject, and the stored referrers response for that subject
-	// (the subject may be that non-manifest child; quick tier: only together with it)
+	// (the subject may be that non-manifest child: only together with it)
 	subjK := vh.Choice("subjectR", 4+size)
-	if size == 0 {
-		vh.Assume((kidsI == 2) == (subjK == 3))
-		vh.Assume(kidsI != 2 || layerK == 0)
-	}
+	// (both tiers: the non-manifest child shape goes together with that child as subject
+	// and one layer choice - the full product with the larger thorough universe was not
+	// affordable)
+	vh.Assume((kidsI == 2) == (subjK == 3))
+	vh.Assume(kidsI != 2 || layerK == 0)
 	subjR := []string{"X", "A", "I", "L1", "outside"}[subjK]
 	r := g.image("R", []string{"C", "L2"}, subjR)
 	resp := types.Index{SchemaVersion: 2, MediaType: types.MediaTypeOCI1ManifestList,
